@@ -364,7 +364,8 @@ Definition result_covered (f : flow) (nc : text * text) : Prop :=
 
 (* a saved (name, category) that is exactly F16: saved by an open_ticket action of the flow under its result_name *)
 Definition saved_by_open_ticket (f : flow) (nc : text * text) : Prop :=
-  exists n a, In n (f_nodes f) /\ In a (n_actions n) /\ a_behav a = BSaver SvOpenTicket (fst nc).
+  (exists n a, In n (f_nodes f) /\ In a (n_actions n) /\ a_behav a = BSaver SvOpenTicket (fst nc))
+  /\ In (snd nc) (sv_save_cats SvOpenTicket).
 
 (* every step of the trace is one the model can take (what [accepts] establishes, and what the executable engine
    of model/InspectExec.v establishes for its own traces) *)
@@ -377,15 +378,16 @@ Proof. intros names A tr H o Ho. apply (accepts_from_steps names A tr [] H o Ho)
 (* an action that can save (name, cat) either declares it, or is an open_ticket saving under its result_name *)
 Lemma action_can_save_declared_or_f16 : forall a nc,
   valid_action a = true -> action_can_save a nc = true ->
-  (exists i, In i (action_result_infos a) /\ nc_covered_by i nc) \/ a_behav a = BSaver SvOpenTicket (fst nc).
+  (exists i, In i (action_result_infos a) /\ nc_covered_by i nc)
+  \/ (a_behav a = BSaver SvOpenTicket (fst nc) /\ In (snd nc) (sv_save_cats SvOpenTicket)).
 Proof.
   intros a nc Hv Hs. destruct (action_avoids_undeclared a) eqn:Hu.
   - left. apply action_can_save_declared; assumption.
   - right. unfold action_avoids_undeclared in Hu. unfold action_can_save in Hs.
     destruct (a_behav a) as [| | |s rn]; try discriminate.
     rewrite saver_ok_table in Hu. destruct s; try discriminate.
-    apply andb_true_iff in Hs. destruct Hs as [Hs _]. apply andb_true_iff in Hs. destruct Hs as [_ Hname].
-    apply text_eqb_eq in Hname. rewrite Hname. reflexivity.
+    apply andb_true_iff in Hs. destruct Hs as [Hs Hcat]. apply andb_true_iff in Hs. destruct Hs as [_ Hname].
+    apply text_eqb_eq in Hname. rewrite Hname. split; [reflexivity | apply existsb_text_In; exact Hcat].
 Qed.
 
 Lemma step_results_covered : forall names A o f n,
@@ -404,7 +406,7 @@ Proof.
       destruct (action_can_save_declared_or_f16 a nc (Hva a Ha) Henc) as [[i [Hi Hc]]|H16].
       + left. exists i. split; [|exact Hc]. unfold node_result_infos. apply in_or_app. left.
         apply in_flat_map. exists a. split; assumption.
-      + right. exists n, a. split; [exact Fn|]. split; [exact Ha | exact H16].
+      + right. destruct H16 as [H16 H16c]. split; [|exact H16c]. exists n, a. split; [exact Fn|]. split; [exact Ha | exact H16].
     - left. destruct (n_router n) as [r|] eqn:Er; [|destruct He]. destruct He as [He|He]; [|destruct He]. subst e.
       destruct (router_can_save_declared r (os_exit o) nc Henc) as [i [Hi Hc]].
       exists i. split; [|exact Hc]. unfold node_result_infos. apply in_or_app. right. rewrite Er. exact Hi. }
@@ -440,7 +442,7 @@ Lemma results_covered_partial : forall names A tr,
   exists f, lookup_flow A fid = Some f /\ result_covered f nc.
 Proof.
   intros names A tr Hv Hn Hacc fid nc Hin.
-  destruct (results_covered_or_f16 names A tr Hv Hacc fid nc Hin) as [f [Hf [Hc|[n [a [Hn' [Ha Hb]]]]]]].
+  destruct (results_covered_or_f16 names A tr Hv Hacc fid nc Hin) as [f [Hf [Hc|[[n [a [Hn' [Ha Hb]]]] _]]]].
   - exists f. split; assumption.
   - exfalso. unfold no_open_ticket in Hn. rewrite forallb_forall in Hn.
     specialize (Hn f (lookup_flow_In _ _ _ Hf)). rewrite forallb_forall in Hn. specialize (Hn n Hn').
@@ -618,50 +620,89 @@ Proof.
   - exfalso. rewrite (Hno f n (lookup_flow_In _ _ _ Hf) Hn) in Hr. destruct Hr.
 Qed.
 
-(* the full statement (every carried reference is a dependency) is false of the model: an open_ticket without topic
-   opens its ticket with the topic named "General" of the session assets, which inspection does not list *)
-Definition f2_flow : flow :=
-  {| f_id := 0; f_uuid := text_of_string "f0";
-     f_nodes := [ {| n_id := 1;
-                     n_actions := [ {| a_items := []; a_behav := BSaver SvOpenTicket (text_of_string "Ticket") |} ];
-                     n_router := None; n_exits := [ {| e_id := 1; e_dest := None |} ] |} ] |}.
+(* the full statement (every carried reference is a dependency) is false of the model.  One witness per listed known
+   class, each the input of its known: line; [dependency_gap k names f tr] pins the kind of the asset and that it is
+   one the flow names implicitly *)
+Definition dependency_gap (k : akind) (names : list named) (f : flow) (tr : list ostep) : Prop :=
+  forallb valid_flow [f] = true /\ accepts names [f] tr = true /\
+  exists r, In (f_id f, r) (assets_touched tr) /\ r_kind r = k /\ ~ In r (dependencies f)
+            /\ touched_implicitly names f r.
 
-Definition f2_names : list named :=
-  [ {| nm_kind := KTopic; nm_name := text_of_string "General"; nm_id := text_of_string "topic-0" |} ].
+Definition ts (s : string) : text := text_of_string s.
+Definition lit (s : string) : tpl := {| t_raw := ts s; t_paths := []; t_literal := true |}.
+Definition one_node (acts : list action) : flow :=
+  {| f_id := 0; f_uuid := ts "f0";
+     f_nodes := [ {| n_id := 1; n_actions := acts; n_router := None; n_exits := [ {| e_id := 1; e_dest := None |} ] |} ] |}.
+Definition one_step (saved : list (text * text)) (r : aref) : list ostep :=
+  [ {| os_run := 0; os_parent := None; os_flow := 0; os_node := 1; os_saved := saved; os_touched := [r];
+       os_exit := Some 1; os_resumed := false |} ].
 
-Definition f2_trace : list ostep :=
-  [ {| os_run := 0; os_parent := None; os_flow := 0; os_node := 1;
-       os_saved := [(text_of_string "Ticket", text_of_string "Success")];
-       os_touched := [ {| r_kind := KTopic; r_id := text_of_string "topic-0" |} ]; os_exit := Some 1; os_resumed := false |} ].
+(* class touched-asset-not-a-dependency:topic:default-topic — open_ticket without topic, assets have "General" *)
+Definition w_default_topic : flow := one_node [ {| a_items := []; a_behav := BSaver SvOpenTicket (ts "Ticket") |} ].
+(* class …:group:literal-name_match — add_contact_groups groups [{"name_match": "Group 1"}] *)
+Definition w_group_name_match : flow := one_node [ {| a_items := [IVar KGroup (lit "Group 1")]; a_behav := BPlain |} ].
+(* class …:label:literal-name_match — add_input_labels labels [{"name_match": "label 0"}], the label is "Label 0" *)
+Definition w_label_name_match : flow := one_node [ {| a_items := [IVar KLabel (lit "label 0")]; a_behav := BPlain |} ].
+(* class …:user:literal-email_match — open_ticket with a topic and assignee {"email_match": "bob@acme.io"} *)
+Definition w_user_email_match : flow :=
+  one_node [ {| a_items := [IRef {| r_kind := KTopic; r_id := ts "t1" |}; IVar KUser (lit "bob@acme.io")];
+                a_behav := BSaver SvOpenTicket (ts "Ticket") |} ].
+(* class …:group:literal-legacy_var — send_broadcast legacy_vars [" Group 2 "] *)
+Definition w_legacy_var : flow :=
+  one_node [ {| a_items := [ILegacy {| tf_vals := [lit " Group 2 "]; tf_trans := [] |}]; a_behav := BPlain |} ].
 
-Lemma dependencies_listed_refuted :
-  exists names A tr, forallb valid_flow A = true /\ accepts names A tr = true /\
-    exists fid r f, In (fid, r) (assets_touched tr) /\ lookup_flow A fid = Some f /\ ~ In r (dependencies f).
+Definition nm (k : akind) (name id : string) : named := {| nm_kind := k; nm_name := ts name; nm_id := ts id |}.
+
+Ltac gap_witness names tr r :=
+  exists names, tr; split; [vm_compute; reflexivity|]; split; [vm_compute; reflexivity|];
+  exists r; split; [left; reflexivity|]; split; [reflexivity|]; split;
+  [let H := fresh "H" in intro H; vm_compute in H; intuition discriminate
+  | eexists; split; [left; reflexivity | vm_compute; left; reflexivity]].
+
+Lemma gap_default_topic : exists names tr, dependency_gap KTopic names w_default_topic tr.
 Proof.
-  exists f2_names, [f2_flow], f2_trace. split; [vm_compute; reflexivity|]. split; [vm_compute; reflexivity|].
-  exists 0, {| r_kind := KTopic; r_id := text_of_string "topic-0" |}, f2_flow.
-  split; [left; reflexivity|]. split; [reflexivity|]. intro H. vm_compute in H. exact H.
+  gap_witness [nm KTopic "General" "topic-0"]
+              (one_step [(ts "Ticket", ts "Success")] {| r_kind := KTopic; r_id := ts "topic-0" |})
+              {| r_kind := KTopic; r_id := ts "topic-0" |}.
 Qed.
 
-(* the same for a group named by an expression-free name_match *)
-Definition f3_flow : flow :=
-  {| f_id := 0; f_uuid := text_of_string "f0";
-     f_nodes := [ {| n_id := 1;
-                     n_actions := [ {| a_items := [IVar KGroup {| t_raw := text_of_string "Testers"; t_paths := []; t_literal := true |}];
-                                       a_behav := BPlain |} ];
-                     n_router := None; n_exits := [ {| e_id := 1; e_dest := None |} ] |} ] |}.
-
-Lemma dependencies_listed_refuted_by_name :
-  exists names A tr, forallb valid_flow A = true /\ accepts names A tr = true /\
-    exists fid r f, In (fid, r) (assets_touched tr) /\ lookup_flow A fid = Some f /\ ~ In r (dependencies f).
+Lemma gap_group_name_match :
+  no_open_ticket [w_group_name_match] = true /\ exists names tr, dependency_gap KGroup names w_group_name_match tr.
 Proof.
-  exists [ {| nm_kind := KGroup; nm_name := text_of_string "testers"; nm_id := text_of_string "g-7" |} ], [f3_flow],
-    [ {| os_run := 0; os_parent := None; os_flow := 0; os_node := 1; os_saved := [];
-         os_touched := [ {| r_kind := KGroup; r_id := text_of_string "g-7" |} ]; os_exit := Some 1; os_resumed := false |} ].
-  split; [vm_compute; reflexivity|]. split; [vm_compute; reflexivity|].
-  exists 0, {| r_kind := KGroup; r_id := text_of_string "g-7" |}, f3_flow.
-  split; [left; reflexivity|]. split; [reflexivity|]. intro H. vm_compute in H. exact H.
+  split; [vm_compute; reflexivity|].
+  gap_witness [nm KGroup "Group 1" "g-1"] (one_step [] {| r_kind := KGroup; r_id := ts "g-1" |})
+              {| r_kind := KGroup; r_id := ts "g-1" |}.
 Qed.
+
+Lemma gap_label_name_match :
+  no_open_ticket [w_label_name_match] = true /\ exists names tr, dependency_gap KLabel names w_label_name_match tr.
+Proof.
+  split; [vm_compute; reflexivity|].
+  gap_witness [nm KLabel "Label 0" "l-0"] (one_step [] {| r_kind := KLabel; r_id := ts "l-0" |})
+              {| r_kind := KLabel; r_id := ts "l-0" |}.
+Qed.
+
+Lemma gap_user_email_match : exists names tr, dependency_gap KUser names w_user_email_match tr.
+Proof.
+  gap_witness [nm KUser "bob@acme.io" "bob@acme.io"]
+              (one_step [(ts "Ticket", ts "Success")] {| r_kind := KUser; r_id := ts "bob@acme.io" |})
+              {| r_kind := KUser; r_id := ts "bob@acme.io" |}.
+Qed.
+
+Lemma gap_legacy_var :
+  no_open_ticket [w_legacy_var] = true /\ exists names tr, dependency_gap KGroup names w_legacy_var tr.
+Proof.
+  split; [vm_compute; reflexivity|].
+  gap_witness [nm KGroup "Group 2" "g-2"] (one_step [] {| r_kind := KGroup; r_id := ts "g-2" |})
+              {| r_kind := KGroup; r_id := ts "g-2" |}.
+Qed.
+
+(* users are looked up by the exact email: another spelling names nobody *)
+Example user_email_is_exact :
+  node_implicit_refs [nm KUser "bob@acme.io" "bob@acme.io"]
+    {| n_id := 1; n_actions := [ {| a_items := [IVar KUser (lit "Bob@Acme.io")]; a_behav := BPlain |} ];
+       n_router := None; n_exits := [] |} = [].
+Proof. vm_compute. reflexivity. Qed.
 
 (* the dependency list has no duplicates and nothing that is not written in the flow *)
 Lemma dependencies_exact : forall f,
@@ -786,7 +827,8 @@ Proof. destruct s; vm_compute; discriminate. Qed.
    registered type (and therefore accounted for in that type's row, see rows_complete) *)
 Definition site_known (sc : string * string) : bool :=
   let c := snd sc in
-  String.eqb c "action-sink" || String.eqb c "router-sink" || String.eqb c "run.SaveResult" || prefix "Results." c.
+  String.eqb c "action-sink" || String.eqb c "router-sink" || String.eqb c "run.SaveResult"
+  || String.eqb c "Results.Save" || String.eqb c "Results.Clone".
 
 Lemma save_sites_known : save_result_sites <> [] /\ forall sc, In sc save_result_sites -> site_known sc = true.
 Proof.
